@@ -11,6 +11,7 @@ structure Code.Correct (c : Code) : Prop where
   mode : c.fetchMode = .atomicFetchAdd
   incr : c.fetchIncr = 1
   init : c.initNext = 0
+  reset : c.resetsNext = true
   stop : ∀ i n, c.stopWhen i n = true ↔ n ≤ i
   addr : ∀ b i s, c.elemAddr b i s = b + i * s
   spawn0 : c.spawnStart = 0
@@ -19,7 +20,7 @@ structure Code.Correct (c : Code) : Prop where
   join : ∀ k W, c.joinCond k W = true ↔ k < W
 
 theorem Code.reference_correct : Code.reference.Correct :=
-  ⟨rfl, rfl, rfl, by simp [Code.reference], by simp [Code.reference], rfl, by simp [Code.reference], rfl,
+  ⟨rfl, rfl, rfl, rfl, by simp [Code.reference], by simp [Code.reference], rfl, by simp [Code.reference], rfl,
    by simp [Code.reference]⟩
 
 def doneOf : WState → List Nat
